@@ -98,10 +98,18 @@ def stepsGo (s : RState) : List Item → List String → RState × List String
     | .err e => (s, acc ++ ["err:" ++ e.toString])
 
 def handleC03 : List String → Option String
-  | "c03.steps" :: ms :: rest => do
+  | "c03.steps" :: ms :: edns :: rest => do
     let m ← parseMsgTokens rest
     let ms ← ms.toNat?
     let (s, tr) := stepsGo (RState.init m.id m.flags ms m.origin) m.items []
+    -- `add_edns(version, ednsflags, payload, options)`: the O: token carries the caller's raw ednsflags
+    let (s, tr) := match m.opt, edns.toNat? with
+      | some o, some v =>
+        (match s.addEdns v o.ttl o.payload o.options with
+          | .ok s' => (s', tr ++ [s!"opt:ok:{s'.out.length}"])
+          | .tooBig s' => (s', tr ++ [s!"opt:big:{s'.out.length}"])
+          | .err e => (s, tr ++ ["opt:err:" ++ e.toString]))
+      | _, _ => (s, tr)
     let s := s.writeHeader
     some ("ok " ++ " ".intercalate tr ++ s!" out={toHexP s.out} tbl="
       ++ ";".intercalate (s.tbl.map fun p => showName p.1 ++ "@" ++ toString p.2))
